@@ -360,7 +360,9 @@ pub fn run(ctx: &Ctx) -> Report {
     });
     total.merge(random);
 
-    // nesting up to the bound of 64 and long operator chains (counters, recursion limits)
+    // nesting up to the bound of 64 and long operator chains (counters, recursion limits);
+    // run on a thread with a large stack: the trees are up to 2500 levels deep
+    let st = std::thread::scope(|sc| std::thread::Builder::new().stack_size(1 << 30).spawn_scoped(sc, || {
     let mut st = Stats::new();
     let t = || W::Prim(E::T(Tst::True));
     for n in 1..=64usize {
@@ -383,7 +385,7 @@ pub fn run(ctx: &Ctx) -> Report {
         let v = judge_words(&ws);
         st.record(&v, stable_hash(&ws), true, || words_json(&ws));
     }
-    for n in [10usize, 100, 127, 128, 129, 255, 256, 257, 400] {
+    for n in [10usize, 100, 127, 128, 129, 255, 256, 257, 400, 1000, 2047, 2048, 2049, 2500] {
         for op in [Some(W::And(false)), Some(W::And(true)), None, Some(W::Or(false)), Some(W::Or(true)), Some(W::Comma)] {
             let mut ws = vec![t()];
             for i in 0..n {
@@ -396,8 +398,10 @@ pub fn run(ctx: &Ctx) -> Report {
             st.record(&v, stable_hash(&ws), true, || json!({"kind": "words", "text": format!("chain of {n} operands"), "words": ws.iter().map(word_text).collect::<Vec<_>>()}));
         }
     }
+    st
+    }).unwrap().join().unwrap());
     total.merge(st);
-    total.exhaustive_parts.push("parenthesis / negation nesting of every depth 1..=64; operator chains of 10..400 operands for every operator spelling".into());
+    total.exhaustive_parts.push("parenthesis / negation nesting of every depth 1..=64; operator chains of 10..2500 operands for every operator spelling".into());
     // coverage-guided part: replay of the committed corpus (quick), libFuzzer campaign (thorough)
     crate::fuzzrun::replay_corpus("grammar", &mut total);
     if ctx.tier == Tier::Thorough && ctx.part.is_none() {
